@@ -71,6 +71,37 @@ impl Join for RayonJoin {
     }
 }
 
+/// Verification hook: a `Join` whose execution order is decided by a callback
+/// installed through `crate::verif::set_join_hook` (serial left-then-right when
+/// none is installed). Only compiled with `--cfg blake3_team_blake3_verif`.
+#[cfg(all(blake3_team_blake3_verif, feature = "std"))]
+pub enum VerifJoin {}
+
+#[cfg(all(blake3_team_blake3_verif, feature = "std"))]
+impl Join for VerifJoin {
+    fn join<A, B, RA, RB>(oper_a: A, oper_b: B) -> (RA, RB)
+    where
+        A: FnOnce() -> RA + Send,
+        B: FnOnce() -> RB + Send,
+        RA: Send,
+        RB: Send,
+    {
+        let mut oper_a = Some(oper_a);
+        let mut oper_b = Some(oper_b);
+        let mut result_a = None;
+        let mut result_b = None;
+        {
+            let mut half_a = || result_a = Some((oper_a.take().expect("left half called twice"))());
+            let mut half_b = || result_b = Some((oper_b.take().expect("right half called twice"))());
+            crate::verif::join_dispatch(&mut half_a, &mut half_b);
+        }
+        (
+            result_a.expect("left half not run"),
+            result_b.expect("right half not run"),
+        )
+    }
+}
+
 #[cfg(test)]
 mod test {
     use super::*;
